@@ -596,14 +596,32 @@ func infoChannel(o vh.Opts, r *vh.RNG, rep *vh.Report) {
 		}
 		total := uint32(nd)
 		tag := "shape=regular"
+		if spread > 700_000 && r.Chance(1, 3) {
+			// sparse late documents as sealing sees them (IDs sorted, newest first): pairs that share a calendar minute
+			// but straddle a border of the distribution's buckets (aligned to the oldest, non minute-aligned MID), gaps
+			tag = "shape=same-minute-adjacent-buckets"
+			oldest := ct - uint64(spread)
+			if oldest%60_000 == 0 {
+				oldest += uint64(r.Range(1, 59_999))
+			}
+			mids = []uint64{oldest}
+			nb := uint64(spread) / 60_000
+			for j := 0; j < r.Range(1, 3); j++ {
+				border := oldest + uint64(r.Range(1, int(min(nb, 1400))))*60_000
+				mids = append(mids, border-uint64(r.Range(1, int(border%60_000))), border+uint64(r.Intn(int(60_000-border%60_000))))
+			}
+			sort.Slice(mids, func(a, b int) bool { return mids[a] > mids[b] })
+			lo, hi = mids[len(mids)-1], mids[0]
+			total = uint32(len(mids))
+		}
 		switch r.Intn(12) {
 		case 0:
-			total, tag = 0, "shape=docs-total-0"
+			total, tag = 0, tag+",docs-total-0"
 		case 1:
-			lo, hi, tag = maxU64, 0, "shape=empty-borders"
+			lo, hi, tag = maxU64, 0, tag+",empty-borders"
 		case 2:
 			mids = append(mids, two63+uint64(r.Intn(5)))
-			hi, tag = mids[len(mids)-1], "shape=mid>=2^63"
+			hi, tag = mids[len(mids)-1], tag+",mid>=2^63"
 		}
 		ids := []seq.ID{{MID: seq.MID(maxU64), RID: seq.RID(maxU64)}}
 		build := []uint64{maxU64}
@@ -970,6 +988,30 @@ func childMain(path string) {
 				doSearch(fmt.Sprintf("d%d.%d.asc", k, j), rg[0], rg[1], pb.Order_ORDER_ASC)
 			}
 		}
+		// directed: a point query and a +-1 s query for every document of the small fractions (every occupied bucket
+		// of every distribution is asked for)
+		np := 0
+		for k, f := range fracs {
+			if f.dense > 0 {
+				continue
+			}
+			for _, b := range f.bulks {
+				for _, d := range b {
+					if np >= 60 {
+						break
+					}
+					order := pb.Order_ORDER_DESC
+					if np%2 == 1 {
+						order = pb.Order_ORDER_ASC
+					}
+					doSearch(fmt.Sprintf("p%d.%d", k, np), d.mid, d.mid, order)
+					if d.mid > 1000 && d.mid < two63 {
+						doSearch(fmt.Sprintf("p%d.%d.s", k, np), d.mid-1000, d.mid+1000, order)
+					}
+					np++
+				}
+			}
+		}
 		for q := 0; q < sc.Queries; q++ {
 			var qf, qt uint64
 			for tries := 0; ; tries++ {
@@ -1018,6 +1060,10 @@ func childMain(path string) {
 					blk := disk.DocBlock(b)
 					if present[i] && !bytes.Equal(blk.Payload(), docBody(uint64(ids[i].MID), uint64(ids[i].RID))) {
 						missing = append(missing, fmt.Sprintf("#%d=%s", i, idsS[i]))
+						// does the fraction that holds the document deny containing its MID?
+						if fr, ok := byName()[owner[realDoc{uint64(ids[i].MID), uint64(ids[i].RID)}]]; ok && cell(func() bool { return fr.Contains(ids[i].MID) }) == '0' {
+							class = "contains-false:" + class
+						}
 					}
 				}
 			}
@@ -1214,6 +1260,19 @@ func denseScenario(seed int64, thorough bool) scenario {
 	}}
 }
 
+// sealed fractions with sparse late documents: the oldest MID is 10 min .. 24 h before creation and not minute
+// aligned, so the buckets of the distribution (aligned to that MID) straddle calendar minutes; documents that share a
+// calendar minute but fall into adjacent buckets, gaps of many buckets, neighbours in one bucket
+func sparseLateScenario(seed int64) scenario {
+	return scenario{Name: "sparse-late", Seed: seed, Queries: 16, Fetches: 8, Fracs: []fracSpec{
+		{Sealed: true, Bulks: [][]docSpec{{{Off: -2_233_500}, {Off: -2_233_400}, {Off: -2_190_000}, {Off: -2_185_000}, {Off: -2_173_499}, {Off: -2_173_501}},
+			{{Off: -1_500_250}, {Off: -1_480_250}, {Off: -1_460_250}, {Off: -700_007}, {Off: -660_007}}, {{Off: -3}, {Off: 40_000}}}},
+		{Sealed: true, Bulks: [][]docSpec{{{Off: -80_000_123}, {Off: -79_990_123}, {Off: -79_970_123}, {Off: -40_000_000}, {Off: -39_999_000}, {Off: -39_961_000}},
+			{{Off: -86_399_999}, {Off: -86_400_001}, {Off: -90_000_000}, {Off: -601_000}, {Off: -599_000}}}},
+		{Sealed: false, Bulks: [][]docSpec{{{Off: -1_000_000}, {Off: -990_000}}}},
+	}}
+}
+
 func systemOracle(o vh.Opts, rep *vh.Report, scs []scenario) {
 	fi := vh.NewChannel("frac.info", "REAL fractions (FracManager + GrpcV1.Bulk + seal + two restarts): Info().From/To/DocsTotal/Distribution and IsIntersecting on probe pairs vs SV.FracInfo (appendBulk per bulk, sealed = BuildDistribution over the stub and all MIDs); stages live / reloaded (.frac-cache) / reloaded-nocache (index info block); non-trivial = fraction has a distribution")
 	so := vh.NewOracle("prune.search", "real GrpcV1.Search(service:c14, [qf,qt]) over active+sealed fractions, live and after restarts, returns exactly the ingested documents with qf <= MID <= qt (every document of every fraction examined by the harness); non-trivial = some fraction was pruned and some document was in range")
@@ -1252,6 +1311,9 @@ func systemOracle(o vh.Opts, rep *vh.Report, scs []scenario) {
 				if strings.HasPrefix(f[2], "d") {
 					tags = append(tags, "directed-multi-block-token")
 				}
+				if strings.HasPrefix(f[2], "p") {
+					tags = append(tags, "directed-per-document")
+				}
 				if cross {
 					tags = append(tags, "range=crosses-2^63")
 				}
@@ -1273,6 +1335,8 @@ func systemOracle(o vh.Opts, rep *vh.Report, scs []scenario) {
 						site, class = "frac/processor/search.go:narrowed-scan", "document-in-range-not-returned-by-kept-fraction"
 					} else if cross {
 						class = "range-crosses-int64-boundary"
+					} else if qf == qt {
+						site, class = "frac/info.go:Info.IsIntersecting", "fraction-denies-containing-its-document"
 					}
 					key := site + class
 					if !reported[key] {
@@ -1288,12 +1352,18 @@ func systemOracle(o vh.Opts, rep *vh.Report, scs []scenario) {
 				fo.Case(sc.Name+"/"+f[1]+"/"+f[2]+"/"+f[4], !strings.HasPrefix(f[3], "present-only"), "stage="+f[1], "class="+f[3], "status="+f[5])
 				if f[5] != "ok" || f[6] != "missing=-" {
 					class := "present-document-not-fetched"
-					if strings.HasPrefix(f[3], "with-unknown-mid>=2^63") {
+					if strings.HasPrefix(f[3], "contains-false:") {
+						// Fraction.Contains(mid) = Info.IsIntersecting(mid, mid) is false for a document the fraction holds
+						class = "fraction-denies-containing-its-document"
+					} else if strings.HasPrefix(f[3], "with-unknown-mid>=2^63") {
 						class = "range-crosses-int64-boundary"
 					} else if strings.HasPrefix(f[3], "multi-batch") {
 						class = "present-document-not-fetched-in-multi-batch-request"
 					}
 					site := "fracmanager/fetcher.go:groupIDsByFraction"
+					if class == "fraction-denies-containing-its-document" {
+						site = "frac/info.go:Info.IsIntersecting"
+					}
 					key := site + class
 					if !reported[key] {
 						reported[key] = true
@@ -1375,6 +1445,7 @@ func main() {
 		var scs []scenario
 		scs = append(scs, witnessScenario(int64(r.U64()>>1)))
 		scs = append(scs, denseScenario(int64(r.U64()>>1), o.Thorough()))
+		scs = append(scs, sparseLateScenario(int64(r.U64()>>1)))
 		n := o.Pick(4, 14)
 		for i := 0; i < n; i++ {
 			scs = append(scs, genScenario(r.Fork(), fmt.Sprintf("s%d", i), i%4 == 3, o.Thorough()))
